@@ -8,12 +8,12 @@ import (
 
 	"connectrpc.com/connect"
 	"github.com/streamingfast/bstream"
+	"github.com/streamingfast/substreams/block"
 	"github.com/streamingfast/substreams/orchestrator/plan"
 	pbsubstreamsrpc "github.com/streamingfast/substreams/pb/sf/substreams/rpc/v2"
 	pbsubstreams "github.com/streamingfast/substreams/pb/sf/substreams/v1"
 	"github.com/streamingfast/substreams/pipeline"
 	"github.com/streamingfast/substreams/pipeline/exec"
-	"github.com/streamingfast/substreams/block"
 )
 
 func init() { register("plan", runPlan) }
@@ -176,7 +176,9 @@ func runPlan(a *args) error {
 			}
 		}
 	}
-	nt := func(r map[string]any) bool { return r["accepted"].(bool) && len(r["build"].([]uint64))+len(r["read"].([]uint64)) > 0 }
+	nt := func(r map[string]any) bool {
+		return r["accepted"].(bool) && len(r["build"].([]uint64))+len(r["read"].([]uint64)) > 0
+	}
 	for _, prod := range []bool{false, true} {
 		for _, seg := range segs {
 			for _, ss := range storeSets {
